@@ -75,6 +75,7 @@ macro_rules! out1 {
 out1!(usize, |v| Cell::U(*v as u64), 0usize);
 out1!(bool, |v| Cell::U(*v as u64), false);
 out1!(f64, |v| Cell::F(*v), 0.0f64);
+out1!(f32, |v| Cell::F(*v as f64), 0.0f32);
 out1!(Pr, |v| Cell::F(**v as f64), Pr::default());
 out1!(String, |v| Cell::S(v.clone()), String::new());
 
@@ -90,6 +91,24 @@ impl OutT for Array2<f64> {
     }
     fn cell(&self, i: usize, j: usize) -> Cell {
         Cell::F(self[(i, j)])
+    }
+    fn with_rows(&self, rows: usize) -> Self {
+        Array2::zeros((rows, self.ncols()))
+    }
+}
+
+impl OutT for Array2<f32> {
+    fn rows(&self) -> usize {
+        self.nrows()
+    }
+    fn cols(&self) -> usize {
+        self.ncols()
+    }
+    fn shape_vec(&self) -> Vec<usize> {
+        self.shape().to_vec()
+    }
+    fn cell(&self, i: usize, j: usize) -> Cell {
+        Cell::F(self[(i, j)] as f64)
     }
     fn with_rows(&self, rows: usize) -> Self {
         Array2::zeros((rows, self.ncols()))
